@@ -619,8 +619,9 @@ def placement_of(case):
 
 
 def explained_by_default_policy(case, reqs, outcome, check):
-    """would the observation satisfy `check` if the manager-level policy were simply absent (the
-    code derives the policy from the per-request keyword only, i.e. Retry.DEFAULT here)?"""
+    """would the observation satisfy `check` if the manager-level policy were simply absent (as when
+    the code derived the policy from the per-request keyword only, i.e. Retry.DEFAULT here — the
+    repaired defect `manager-constructor-policy-ignored`; kept to recognise it should it return)?"""
     c = dict(case)
     c.pop("mret", None)
     return not check(c, reqs, outcome)
